@@ -11,7 +11,7 @@ impl Check for C02 {
         "C02"
     }
     fn cases(&self, tier: Tier) -> u64 {
-        tier.pick(120_000, 6_000_000)
+        tier.pick(120_000, 10_000_000)
     }
     fn run(&self, ctx: &Ctx, idx: u64, rec: &mut Recorder) {
         book::run_book_case("C02", bookgen::P_ASSERT, ctx, idx, rec);
@@ -36,6 +36,6 @@ impl Check for C02 {
         ]
     }
     fn min_nontrivial(&self, tier: Tier) -> u64 {
-        tier.pick(50_000, 2_000_000)
+        tier.pick(50_000, 4_000_000)
     }
 }
